@@ -1666,6 +1666,12 @@ func (v *VMValue) AsDictKey() (string, error) {
 }
 
 func ValueEqual(a *VMValue, b *VMValue, autoConvert bool) bool {
+	return valueEqualVisit(a, b, autoConvert, nil)
+}
+
+// valueEqualVisit visiting 记录正在比较中的容器对：数组/字典可以自引用(x[0] = x)，再次遇到同一对时视为相等，
+// 否则递归不会结束
+func valueEqualVisit(a *VMValue, b *VMValue, autoConvert bool, visiting map[[2]any]bool) bool {
 	if a == b {
 		return true
 	}
@@ -1681,8 +1687,17 @@ func ValueEqual(a *VMValue, b *VMValue, autoConvert bool) bool {
 			if len(arr1.List) != len(arr2.List) {
 				return false
 			}
+			key := [2]any{arr1, arr2}
+			if arr1 == arr2 || visiting[key] {
+				return true
+			}
+			if visiting == nil {
+				visiting = map[[2]any]bool{}
+			}
+			visiting[key] = true
+			defer delete(visiting, key)
 			for index, i := range arr1.List {
-				if !ValueEqual(i, arr2.List[index], autoConvert) {
+				if !valueEqualVisit(i, arr2.List[index], autoConvert, visiting) {
 					return false
 				}
 			}
@@ -1693,9 +1708,18 @@ func ValueEqual(a *VMValue, b *VMValue, autoConvert bool) bool {
 			if d1.Dict.Length() != d2.Dict.Length() {
 				return false
 			}
+			key := [2]any{d1, d2}
+			if d1 == d2 || visiting[key] {
+				return true
+			}
+			if visiting == nil {
+				visiting = map[[2]any]bool{}
+			}
+			visiting[key] = true
+			defer delete(visiting, key)
 			isSame := true
 			d1.Dict.Range(func(key string, value *VMValue) bool {
-				isEqual := ValueEqual(value, d2.Dict.MustLoad(key), autoConvert)
+				isEqual := valueEqualVisit(value, d2.Dict.MustLoad(key), autoConvert, visiting)
 				if !isEqual {
 					isSame = false
 					return false
